@@ -141,7 +141,7 @@ def n0pretty(
                     element_names.update({key: 0})
                 if len(element_names) > 2:
                     return None # Not more that 2 elems could be condensed into one line
-                sub_item_key_value = sub_item[key]
+                sub_item_key_value = dict.__getitem__(sub_item, key)  # the entry itself: n0dict[key] would resolve the key as xpath
                 if not isinstance(sub_item_key_value, (str, int, float)):
                     return None # Sub element has complex structure
 
@@ -194,7 +194,7 @@ def n0pretty(
                 sub_result = ""
                 for key in keys_and_max_len_of_value:
                     if key in sub_item:
-                        sub_item_key_value = sub_item[key]
+                        sub_item_key_value = dict.__getitem__(sub_item, key)
 
                         key_type = ""
                         value_type = ""
@@ -256,7 +256,7 @@ def n0pretty(
 
                     if indent_ < 111:
                         sub_item_value = n0pretty(
-                                                item[key],
+                                                dict.__getitem__(item, key),
                                                 indent_ + 1,
                                                 show_type,
                                                 __indent_size,
